@@ -247,6 +247,8 @@ impl StreamsState {
         self.pending.clear();
         self.send_streams = 0;
         self.data_sent = 0;
+        // None of the early data will ever be acknowledged
+        self.unacked_data = 0;
         self.connection_blocked.clear();
     }
 
